@@ -162,38 +162,41 @@ class FakeFS:
 FS = FakeFS()
 
 
-class _Writer(io.StringIO):
+class _Writer:
+    """pure-Python text sink (io.StringIO is C and would concretise symbolic text)"""
+    binary = False
+
     def __init__(self, name):
-        super().__init__()
         self.name = name
+        self.chunks = []
+        self.closed = False
         FS.open_writers.add(name)
+
+    def write(self, data):
+        if self.binary:
+            data = data.decode("utf-8")
+        self.chunks.append(data)
+        return len(data)
+
+    def flush(self):
+        pass
 
     def close(self):
         if not self.closed:
-            FS.files[self.name] = self.getvalue()
+            FS.files[self.name] = "".join(self.chunks)
             FS.open_writers.discard(self.name)
             FS.log.append(("close", self.name))
-        super().close()
+            self.closed = True
+
+    def __enter__(self):
+        return self
 
     def __exit__(self, *a):
         self.close()
 
 
-class _BWriter(io.BytesIO):
-    def __init__(self, name):
-        super().__init__()
-        self.name = name
-        FS.open_writers.add(name)
-
-    def close(self):
-        if not self.closed:
-            FS.files[self.name] = self.getvalue().decode("utf-8")
-            FS.open_writers.discard(self.name)
-            FS.log.append(("close", self.name))
-        super().close()
-
-    def __exit__(self, *a):
-        self.close()
+class _BWriter(_Writer):
+    binary = True
 
 
 class _LineReader:
